@@ -516,6 +516,48 @@ def execute(sc):
                     except Exception:
                         res.probe("elements_ctor_rejects")
                     break
+        # commands stack their format on the parent's: CommandConfig.build_args_format(base)
+        from clikit.api.config.command_config import CommandConfig
+        plain = [op for op in accepted if op[0] in ("opt", "arg")]
+
+        def via_config(ops_):
+            cc = CommandConfig("cmdname")
+            for op in ops_:
+                if op[0] == "opt":
+                    cc.add_option(op[1], op[2], op[3])
+                else:
+                    cc.add_argument(op[1], op[2])
+            return cc.build_args_format(base_fmt)
+
+        # only when no command option of the top level could collide with what the config adds
+        if not lv.copts:
+            try:
+                f3 = via_config(plain)
+                got_o = [(o.long_name, o.short_name) for o in f3.get_options(False).values()]
+                got_a = [(a.name, a.flags) for a in f3.get_arguments(False).values()]
+                if sorted(got_o) != sorted((o[0], o[1]) for o in lv.opts) or got_a != list(lv.args):
+                    res.violate("command_config", "differs", "CommandConfig.build_args_format lists options %r arguments %r, elements imply %r / %r" % (got_o, got_a, lv.opts, lv.args))
+                names = [n.string for n in f3.get_command_names(False)]
+                if names != ["cmdname"]:
+                    res.violate("command_config", "names", "own command names %r" % names)
+                if [a.name for a in f3.get_arguments().values()] != [a[0] for a in model.all_args()]:
+                    res.violate("command_config", "argument_order", "stacked arguments %r, levels imply %r" % (list(f3.get_arguments()), [a[0] for a in model.all_args()]))
+            except Exception as e:
+                res.violate("command_config", "rejects_valid", "CommandConfig path raised %s: %s for accepted elements %r" % (type(e).__name__, e, plain))
+            for op in sc["ops"]:
+                if op[0] in ("opt", "arg") and not _degenerate(op):
+                    ok = model.can_add_option(op[1], op[2]) if op[0] == "opt" else model.can_add_arg(op[1], op[2])
+                    if not ok:
+                        try:
+                            _mk(op)
+                        except Exception:
+                            continue
+                        try:
+                            via_config(plain + [op])
+                            res.violate("command_config", "accepts_invalid", "CommandConfig path accepted %r on top of %r (levels %r)" % (op, plain, [l.snap() for l in model.levels]))
+                        except Exception:
+                            pass
+                        break
     except Exception as e:
         import traceback
         res.violate("op_raised", "top", "%s: %s | %s" % (type(e).__name__, e, traceback.format_exc()[-300:]))
